@@ -64,6 +64,46 @@ pub fn run(cfg: &Cfg) -> Report {
                         }
                     }
                 }
+                // the same clause decided at the boundary, independently of what the event sink reports as the
+                // source generation: stream call results present in the previous data (matched by content id,
+                // ids occurring once) keep the relative order of their generations in the output
+                if let Some(pv) = &s.prev_v {
+                    let mut prev_gen: std::collections::BTreeMap<String, Vec<u64>> = Default::default();
+                    for ps in proj::states(pv) {
+                        if let St::CallExec { kind: "stream", cid, generation: Some(g) } = ps {
+                            prev_gen.entry(cid).or_default().push(g);
+                        }
+                    }
+                    let mut out_count: std::collections::BTreeMap<&str, usize> = Default::default();
+                    for os in &states {
+                        if let St::CallExec { kind: "stream", cid, .. } = os {
+                            *out_count.entry(cid.as_str()).or_default() += 1;
+                        }
+                    }
+                    let seen: Vec<(u64, u64)> = inst
+                        .adds
+                        .iter()
+                        .filter_map(|a| match states.get(a.trace_pos as usize) {
+                            Some(St::CallExec { kind: "stream", cid, generation: Some(g) }) if out_count.get(cid.as_str()) == Some(&1) => match prev_gen.get(cid) {
+                                Some(pg) if pg.len() == 1 => Some((pg[0], *g)),
+                                _ => None,
+                            },
+                            _ => None,
+                        })
+                        .collect();
+                    if seen.len() >= 2 {
+                        st.inc("instances_with_two_values_already_in_previous_data", 1);
+                    }
+                    for (i, (pa, oa)) in seen.iter().enumerate() {
+                        for (pb, ob) in seen.iter().skip(i + 1) {
+                            st.inc("seen_value_pairs_checked_at_the_boundary", 1);
+                            let bad = (pa < pb && !(oa < ob)) || (pa > pb && !(oa > ob)) || (pa == pb && oa != ob);
+                            if bad {
+                                st.violation("C12", "seen-values-reordered", &format!("step {} at {}: two values of {} had generations {pa} and {pb} in the previous data of this peer and have {oa} and {ob} in its output", s.idx, w.peers[s.peer].name, inst.name), case, ctx());
+                            }
+                        }
+                    }
+                }
                 // dense renumbering 0..k-1
                 let gens: BTreeSet<u64> = items.iter().map(|(_, g)| *g).collect();
                 let k = gens.len() as u64;
